@@ -797,7 +797,27 @@ def mutate(rng, name, path, pairs):
     return path, pairs, headers, raw_qs, '; '.join(what)
 
 
-def call_app(app, path, qs, headers):
+class FileWrapper(object):
+    """what a WSGI server offers as environ['wsgi.file_wrapper'] (wsgiref.util.FileWrapper): streams the file-like object from
+    its CURRENT position in blocks"""
+
+    def __init__(self, filelike, blksize=8192):
+        self.filelike, self.blksize = filelike, blksize
+        if hasattr(filelike, 'close'):
+            self.close = filelike.close
+
+    def __iter__(self):
+        return self
+
+    def __next__(self):
+        data = self.filelike.read(self.blksize)
+        if data:
+            return data
+        raise StopIteration
+
+
+def start_app(app, path, qs, headers):
+    """first half of a request: the WSGI callable is run (status and headers are fixed), the body is not read yet"""
     env = {'REQUEST_METHOD': 'GET', 'PATH_INFO': path, 'QUERY_STRING': qs, 'SERVER_NAME': 'localhost', 'SERVER_PORT': '80',
            'SERVER_PROTOCOL': 'HTTP/1.1', 'wsgi.url_scheme': 'http', 'wsgi.errors': io.StringIO(), 'wsgi.input': io.BytesIO(),
            'wsgi.version': (1, 0), 'wsgi.multithread': False, 'wsgi.multiprocess': False, 'wsgi.run_once': False,
@@ -805,6 +825,8 @@ def call_app(app, path, qs, headers):
     env.update(headers)
     if qs is None:
         del env['QUERY_STRING']       # PEP 3333: QUERY_STRING may be absent when the URL has no query
+    if env.pop('wsgi.file_wrapper', None):
+        env['wsgi.file_wrapper'] = FileWrapper      # optional platform extension of PEP 3333 (gunicorn, uwsgi, mod_wsgi, wsgiref)
     if env.pop('mapproxy.authorize', None) == 'limited':
         # authorization callback: everything is allowed, but only inside a small area (tiles outside are answered empty)
         def authorize(service, layers=(), environ=None, **kw):
@@ -813,14 +835,27 @@ def call_app(app, path, qs, headers):
                     'layers': dict((name, {'tile': True, 'map': True, 'featureinfo': True, 'legendgraphic': True, 'limited_to': lim})
                                    for name in layers)}
         env['mapproxy.authorize'] = authorize
-    st = {'calls': 0}
+    st = {'calls': 0, 'env': env, 'it': None, 'raised': None}
 
     def start_response(status, hdrs, exc_info=None):
         st['calls'] += 1
         st['status'], st['headers'] = status, hdrs
         return lambda data: None
     try:
-        it = app(env, start_response)
+        st['it'] = app(env, start_response)
+    except BaseException as e:  # noqa
+        if isinstance(e, (KeyboardInterrupt, SystemExit)):
+            raise
+        st['raised'] = '%s: %s' % (type(e).__name__, str(e)[:200])
+    return st
+
+
+def finish_app(st):
+    """second half: the server reads the body"""
+    if st['raised']:
+        return {'raised': st['raised']}
+    try:
+        it = st['it']
         chunks = []
         for c in it:
             chunks.append(c)
@@ -831,7 +866,11 @@ def call_app(app, path, qs, headers):
             raise
         return {'raised': '%s: %s' % (type(e).__name__, str(e)[:200])}
     return {'status': st.get('status'), 'headers': st.get('headers'), 'chunks': chunks, 'calls': st['calls'],
-            'errors': env['wsgi.errors'].getvalue()}
+            'errors': st['env']['wsgi.errors'].getvalue()}
+
+
+def call_app(app, path, qs, headers):
+    return finish_app(start_app(app, path, qs, headers))
 
 
 def requested_size(name, path, pairs):
@@ -1325,6 +1364,8 @@ def part_app(ctx, skeletons):
         wpath = wsgi_path(path, what != 'valid' and ctx.rng.random() < 0.5)
         UP['mode'] = up
         no_qs = qs == '' and idx % 2 == 0          # every second request without query: the environ has no QUERY_STRING key
+        if idx % 3 == 1 or what == 'valid':
+            headers = dict(headers, **{'wsgi.file_wrapper': True})     # the server offers wsgi.file_wrapper
         res = call_app(app, wpath, None if no_qs else qs, headers)
         rep = {'service': name, 'PATH_INFO': wpath, 'QUERY_STRING': None if no_qs else qs, 'headers': headers, 'upstream': up, 'mutation': what,
                'status': res.get('status'), 'body_head': repr(b''.join(res.get('chunks') or [])[:300]) if 'chunks' in res else None}
@@ -1354,7 +1395,9 @@ def part_app(ctx, skeletons):
             conds += [{'HTTP_IF_MODIFIED_SINCE': lm}]
         if not (etag or lm):
             conds = conds[:1]
-        for hdr in conds:
+        for ci, hdr in enumerate(conds):
+            if ci % 2:
+                hdr = dict(hdr, **{'wsgi.file_wrapper': True})
             res = call_app(app, path, qs, hdr)
             rep = {'service': name, 'PATH_INFO': path, 'QUERY_STRING': qs, 'headers': hdr, 'upstream': 'ok',
                    'history': 'the same request answered %s with ETag %r, Last-modified %r immediately before' % (first.get('status'), etag, lm),
@@ -1362,6 +1405,39 @@ def part_app(ctx, skeletons):
             kind = oracle_response(ctx, name, res, rep, requested_size(name, path, pairs), base, skeletons, appdocs)
             ctx.case(('conditional', path, qs, tuple(sorted(hdr.items()))), True)
             ctx.count('conditional:status=' + (res.get('status') or 'raised')[:3])
+    # schedules of two overlapping requests in one instance (a threaded server): both WSGI callables have run before the first
+    # body is read; read order A,B and B,A.  Pairs: the same blank tile twice, blank tile + other tile, any two valid requests.
+    by_name = dict((n, (pth, prs)) for n, pth, prs in bases)
+    pairs_ab = []
+    authz = {'mapproxy.authorize': 'limited'}
+    for svc in ('tms.tile', 'wmts.rest.tile', 'wmts.kvp.tile', 'tiles.tile', 'kml.tile', 'tms.tile.big', 'wmts.rest.tile.big'):
+        pth, prs = fresh(by_name[svc][0], by_name[svc][1], 17)           # tile 4/1/1: outside the authorized area, answered blank
+        blank = (svc, pth, prs, authz)
+        pth2, prs2 = fresh(by_name[svc][0], by_name[svc][1], 8 * 16 + 8)
+        pairs_ab += [(blank, blank), (blank, (svc, pth2, prs2, authz)), (blank, (svc, by_name[svc][0], by_name[svc][1], {}))]
+    valid = [(n, pth, prs, {}) for n, pth, prs in bases]
+    for i in range(len(valid)):
+        pairs_ab.append((valid[i], valid[i]))
+        pairs_ab.append((valid[i], valid[(i * 7 + 3) % len(valid)]))
+    for pi, (ra, rb) in enumerate(pairs_ab):
+        UP['mode'] = 'ok'
+        fw = {'wsgi.file_wrapper': True} if pi % 2 else {}
+        qa, qb = enc_query(ra[2], ctx.rng), enc_query(rb[2], ctx.rng)
+        sa = start_app(app, ra[1], qa, dict(ra[3], **fw))
+        sb = start_app(app, rb[1], qb, dict(rb[3], **fw))
+        order = (sa, sb) if pi % 4 < 2 else (sb, sa)
+        done = {}
+        for st_ in order:
+            done[id(st_)] = finish_app(st_)
+        for which, rq, q_, st_ in (('first', ra, qa, sa), ('second', rb, qb, sb)):
+            res = done[id(st_)]
+            rep = {'service': rq[0], 'PATH_INFO': rq[1], 'QUERY_STRING': q_, 'headers': dict(rq[3], **fw), 'upstream': 'ok',
+                   'schedule': 'two overlapping requests: A = %s?%s, B = %s?%s; both WSGI calls made, then bodies read in the order %s; '
+                               'this is the %s request' % (ra[1], qa, rb[1], qb, 'A,B' if pi % 4 < 2 else 'B,A', which),
+                   'status': res.get('status'), 'body_head': repr(b''.join(res.get('chunks') or [])[:120]) if 'chunks' in res else None}
+            oracle_response(ctx, rq[0], res, rep, requested_size(rq[0], rq[1], rq[2]), base, skeletons, appdocs)
+            ctx.case(('overlap', pi, which), True)
+            ctx.count('overlap:status=' + (res.get('status') or 'raised')[:3])
     # the instance whose cache directories cannot be created
     if faulty is None:
         ctx.problem('harness', 'the application with an unusable cache directory could not be built')
